@@ -1854,9 +1854,12 @@ def main(ck):
     rng = np.random.default_rng(ck.seed)
     thorough = ck.tier == "thorough"
     ck.rule = (
-        "malformed stream: every malformation class of the property (model description 10 classes with variants, "
-        "fit 7, slicer 3, HDC limits/deltas 4, non-finite points, non-2-D model, IFORM model type) injected at every "
-        "position of every hierarchy of 1-4 dimensions with each of the 8 families (6 shipped + two ScipyDistribution subclasses: gamma by scipy_dist_name, shape-less Gumbel by scipy_dist) as carrier, singly; pairs "
+        "malformed stream: every malformation class of the property (model description 11 classes with variants, "
+        "fit 8 incl. data that is not a table, slicer 4 incl. misplaced named options, HDC limits/deltas 5 incl. limit "
+        "entries, non-finite points, non-2-D model, IFORM model type) injected at every "
+        "position of every hierarchy of 1-4 dimensions with each of the 9 families (6 shipped + LogNormalNormFit + two "
+        "ScipyDistribution subclasses: gamma by scipy_dist_name, shape-less Gumbel by scipy_dist) as carrier of model "
+        "descriptions and fit specifications (grid / point / contour checks: one fixed model per dimension count), singly; pairs "
         + ("exhaustively for model descriptions" if thorough else "as a random sample")
         + "; every well-formed neighbour (the case with the malformation removed, plus accepted variations) is run "
         "too. A case is non-trivial if it is ill-formed or has >= 2 dimensions; distinct by SHA1 of the abstract case."
@@ -1866,6 +1869,8 @@ def main(ck):
         "the number of intervals a slicer keeps is computed by the harness (n_kept) and handed to the model",
         "exception classes outside the enum and numpy-internal failures (zero/negative/NaN deltas) are compared as 'rejected' only",
         "joint cdf of finite points is only evaluated for n_dim = 1 (and 2 in the thorough tier): n-fold quadrature",
+        "rejections inside numpy caused by NaN / infinite HDC limit entries are compared as 'rejected' only",
+        "data shapes: the harness states the shape of np.array(data) it built (checked against the array) to the model",
     ]
     state = new_state()
     global POOL
@@ -1890,6 +1895,10 @@ def main(ck):
     ck.partial = {
         "numerical fits, densities and contours behind the checks": "not modelled; the model ends where validation ends "
         "(well-formed neighbours are only observed to be accepted)",
+        "inputs outside the property's list (evidence keys observed_only:*)": "evaluation points with the wrong number of "
+        "columns, NaN / inf in marginal_pdf / marginal_cdf / marginal_icdf, fit data with >= 3 axes whose last axis has "
+        "n_dim entries, HDC limit tuples written (max, min): what the code does is recorded per run, nothing is demanded",
+        "NaN in the HDC density table": "correspondence with the model only (ValueError at both raise sites), no oracle",
     }
 
 
